@@ -1,4 +1,4 @@
-import NeumannModel.Graph.DeleteNode
+import NeumannModel.Graph.Batch
 import NeumannModel.Graph.Query
 import NeumannModel.Graph.ConcOps
 import NeumannModel.Graph.Atomic
